@@ -765,3 +765,145 @@ Proof.
   intros H1 H2 H3 H4 H5 H6.
   rewrite !(read_interleaved_roundtrip _ objs nchunks nv rows rest) by assumption. reflexivity.
 Qed.
+
+(* ---- C01 layer 4 meets layer 5: the chunk count computed from the data length ---- *)
+
+Lemma enc_strings_blen e ss :
+  blen (enc_strings e ss) = 4 * Z.of_nat (length ss) + zsum (map blen ss).
+Proof.
+  unfold enc_strings. rewrite blen_app. f_equal.
+  - rewrite flat_map_concat_map, (blen_concat_const 4).
+    + rewrite map_length, end_offsets_length. lia.
+    + apply Forall_map. apply Forall_forall. intros z _. unfold blen. rewrite put_u32_length. reflexivity.
+  - induction ss as [|s r IH]; [reflexivity|].
+    cbn [concat map zsum fold_right]. rewrite blen_app. unfold zsum in IH. rewrite IH. reflexivity.
+Qed.
+
+(* bytes an object contributes to a chunk *)
+Lemma enc_obj_blen e n o vs :
+  vals_ok n o vs ->
+  blen (enc_obj e o vs) = match sized o with
+                          | Some sz => n * sz
+                          | None => 4 * n + zsum (map blen vs)
+                          end.
+Proof.
+  intros [Hn Hok]. subst n. unfold enc_obj, sized.
+  destruct (so_dtype o) as [dt|]; [|contradiction].
+  destruct (tds_size dt) as [[sz|]|].
+  - apply enc_values_blen. exact Hok.
+  - apply enc_strings_blen.
+  - apply enc_strings_blen.
+Qed.
+
+(* the object's data_size (raw data index: n * size, or the declared total for
+   strings) is the number of bytes its values take in a chunk *)
+Definition dsize_ok (e : endian) (o : sobj) (vs : list bytes) : Prop :=
+  so_dsize o = blen (enc_obj e o vs).
+
+Lemma enc_chunk_blen e objs vss :
+  Forall2 (dsize_ok e) objs vss ->
+  blen (enc_chunk e (combine objs vss)) = zsum (map so_dsize objs).
+Proof.
+  induction 1 as [|o vs objs vss Hd _ IH]; [reflexivity|].
+  cbn [combine enc_chunk flat_map fst snd map zsum fold_right]. rewrite blen_app.
+  unfold enc_chunk, zsum in IH. rewrite IH, Hd. reflexivity.
+Qed.
+
+Lemma enc_chunks_blen e objs css :
+  Forall (Forall2 (dsize_ok e) objs) css ->
+  blen (enc_chunks e objs css) = Z.of_nat (length css) * zsum (map so_dsize objs).
+Proof.
+  intros H. unfold enc_chunks. rewrite flat_map_concat_map.
+  rewrite (blen_concat_const (zsum (map so_dsize objs))); [rewrite map_length; reflexivity|].
+  apply Forall_map. eapply Forall_impl; [|exact H]. intros vss. apply enc_chunk_blen.
+Qed.
+
+(* _calculate_chunks on a whole number of chunks: that number, no override *)
+Theorem calculate_chunks_exact toc incomplete objs csize n :
+  chunk_size objs = Ok csize -> 0 < csize -> 0 <= n ->
+  calculate_chunks toc incomplete objs (n * csize) = Ok (n, None).
+Proof.
+  intros Hc Hpos Hn. unfold calculate_chunks. rewrite Hc. cbn [bind].
+  replace ((csize <? 0) || (n * csize <? 0)) with false by nia.
+  replace (csize =? 0) with false by lia.
+  rewrite Z.mod_mul by lia. cbn [Z.eqb]. rewrite Z.div_mul by lia. reflexivity.
+Qed.
+
+Lemma seg_layout_contig_chunk_size s :
+  seg_layout s = Ok LContig ->
+  chunk_size (sg_objs s) = Ok (zsum (map so_dsize (data_objs (sg_objs s)))).
+Proof.
+  unfold seg_layout, chunk_size. destruct (have_daqmx (sg_objs s)) as [[|]|]; cbn [bind]; try discriminate.
+  reflexivity.
+Qed.
+
+(* A contiguous segment whose chunk count was computed by _calculate_chunks
+   from the length of its raw data decodes to exactly the encoded chunks. *)
+Theorem contig_segment_roundtrip s css rest :
+  let e := toc_endian (sg_toc s) in
+  let dobjs := data_objs (sg_objs s) in
+  seg_layout s = Ok LContig ->
+  calculate_chunks (sg_toc s) (sg_incomplete s) (sg_objs s) (blen (enc_chunks e dobjs css))
+  = Ok (sg_nchunks s, sg_final s) ->
+  0 < zsum (map so_dsize dobjs) ->
+  NoDup (map so_path dobjs) ->
+  Forall (fun vss => Forall2 (fun o vs => vals_ok (so_nvals o) o vs) dobjs vss) css ->
+  Forall (Forall2 (dsize_ok e) dobjs) css ->
+  read_segment_chunks s (enc_chunks e dobjs css ++ rest)
+  = Ok (map (fun vss => chunk_of (combine dobjs vss)) css, rest).
+Proof.
+  intros e dobjs Hlay Hcalc Hpos Hnd Hok Hds.
+  pose proof (seg_layout_contig_chunk_size s Hlay) as Hcs. fold dobjs in Hcs.
+  rewrite (enc_chunks_blen e dobjs css Hds) in Hcalc.
+  rewrite (calculate_chunks_exact _ _ _ _ _ Hcs Hpos) in Hcalc by lia.
+  injection Hcalc as Hn Hf.
+  apply read_segment_chunks_contig_roundtrip; try assumption; try (symmetry; assumption).
+  apply Forall_forall. intros vss Hin Hnil. rewrite Forall_forall in Hds.
+  pose proof (enc_chunk_blen e dobjs vss (Hds vss Hin)) as Hb.
+  fold e dobjs in Hnil. rewrite Hnil in Hb. cbn in Hb. lia.
+Qed.
+
+Lemma seg_layout_interleaved_chunk_size s :
+  seg_layout s = Ok LInterleaved ->
+  chunk_size (sg_objs s) = Ok (zsum (map so_dsize (data_objs (sg_objs s)))).
+Proof.
+  unfold seg_layout, chunk_size. destruct (have_daqmx (sg_objs s)) as [[|]|]; cbn [bind]; try discriminate.
+  reflexivity.
+Qed.
+
+Lemma interleaved_chunk_bytes nv objs :
+  Forall (fun o => so_nvals o = nv /\ so_dsize o = so_nvals o * size_or0 o) objs ->
+  zsum (map so_dsize objs) = nv * zsum (map size_or0 objs).
+Proof.
+  induction 1 as [|o objs [Hnv Hd] _ IH]; cbn [map zsum fold_right]; [lia|].
+  unfold zsum in IH. rewrite IH, Hd, Hnv. lia.
+Qed.
+
+(* An interleaved segment of m chunks' worth of rows (nv rows per chunk) whose
+   chunk count was computed by _calculate_chunks from the raw data length. *)
+Theorem interleaved_segment_roundtrip s nv m rows rest :
+  let e := toc_endian (sg_toc s) in
+  let dobjs := data_objs (sg_objs s) in
+  seg_layout s = Ok LInterleaved ->
+  calculate_chunks (sg_toc s) (sg_incomplete s) (sg_objs s) (blen (enc_rows e dobjs rows))
+  = Ok (sg_nchunks s, sg_final s) ->
+  dobjs <> [] -> 0 < nv -> 0 <= m ->
+  Forall (fun o => so_nvals o = nv /\ so_dsize o = so_nvals o * size_or0 o) dobjs ->
+  Forall (fun o => sized o <> None) dobjs ->
+  NoDup (map so_path dobjs) ->
+  Forall (row_ok dobjs) rows ->
+  Z.of_nat (length rows) = nv * m ->
+  read_segment_chunks s (enc_rows e dobjs rows ++ rest) = Ok ([cols_of dobjs rows], rest).
+Proof.
+  intros e dobjs Hlay Hcalc Hne Hnv Hm Hobjs Hsz Hnd Hrows Hlen.
+  pose proof (seg_layout_interleaved_chunk_size s Hlay) as Hcs. fold dobjs in Hcs.
+  pose proof (width_pos dobjs Hne Hsz) as Hw.
+  pose proof (interleaved_chunk_bytes nv dobjs Hobjs) as Hcb.
+  rewrite (enc_rows_blen e dobjs rows Hrows), Hlen in Hcalc.
+  replace (nv * m * zsum (map size_or0 dobjs)) with (m * zsum (map so_dsize dobjs)) in Hcalc by nia.
+  rewrite (calculate_chunks_exact _ _ _ _ _ Hcs) in Hcalc by nia.
+  injection Hcalc as Hn Hf.
+  apply (read_segment_chunks_interleaved_roundtrip s nv); try assumption.
+  - eapply Forall_impl; [|exact Hobjs]. intros o [H _]. exact H.
+  - fold dobjs. rewrite <- Hn. lia.
+Qed.
